@@ -600,16 +600,20 @@ impl LocalPeerService {
             .send(PeerConnectionMessage::NewPeer(peer_nodes))
             .await;
 
-        if Self::synchronise_room_data(
+        let changed = Self::synchronise_room_data(
             &remote_room,
             &local_room_def,
             query_service,
             discret_services,
         )
-        .await?
-        {
-            discret_services.database.compute_daily_log().await;
+        .await;
+        //an aborted synchronisation can have committed some days before its failure:
+        //the daily logs are recomputed unless the synchronisation cleanly reports that nothing has changed
+        match changed {
+            Ok(false) => {}
+            _ => discret_services.database.compute_daily_log().await,
         }
+        changed?;
         Ok(())
     }
 
